@@ -15,6 +15,7 @@ func init() {
 			"PV-WHOLE: every successful evaluation returns a typed response (an empty result prints nothing, it does not fail); the merge yields only records the containers produced",
 			"PV-CONST renderOptions fields are written by flag parsing only",
 			"PV-GO concurrent opens: own slot, joined before use",
+			"PV-CONST --limit default is non-positive; line_format result is a copy of the template buffer; PV-CMP comparators",
 		},
 		NotDecided: []string{"terminal behaviour", "isatty / NO_COLOR detection"},
 		Rules: func(r *Run) {
@@ -26,6 +27,9 @@ func init() {
 			ruleResultKindSet(r)
 			ruleRenderOptionsOnlyFlags(r)
 			rulePVGo(r) // every container that was opened is rendered: the goroutines are joined before the merge
+			ruleLimitDefaultUnlimited(r)
+			ruleTemplateBinding(r) // the rendered message is the text the template produced for that entry
+			ruleComparatorsNoSubtraction(r, []string{cmdPkg, enginePkg, metricPkg, dockerlogPkg})
 		},
 	})
 }
